@@ -10,6 +10,7 @@ from .vals import And, Not
 Z3_TIMEOUT_MS = int(os.environ.get('GIVC_Z3_TIMEOUT_MS', '6000'))
 CLI_TIMEOUT_S = int(os.environ.get('GIVC_CLI_TIMEOUT_S', '60'))
 HARD_TIMEOUT_S = int(os.environ.get('GIVC_HARD_TIMEOUT_S', '45'))
+QUICK_S = int(os.environ.get('GIVC_QUICK_S', '6'))
 
 
 class Result(object):
@@ -151,39 +152,96 @@ def run_forked(fn, timeout_s, default):
 
 
 def vacuity(ex):
-    return run_forked(lambda: _vacuity(ex), 120, [('assumptions-consistent', 'unknown (time limit)')])
+    """two attempts (the second with a longer budget and another seed), so that a loaded machine does not flip it"""
+    for budget, seed in ((120, 1), (360, 7)):
+        out = run_forked(lambda: _vacuity(ex, seed), budget, [('assumptions-consistent', 'unknown (time limit)')])
+        if all(v == 'sat' or v == 'unsat' for _, v in out):
+            return out
+    return out
 
 
-def _vacuity(ex):
-    """The conjunction of all assumptions with the function entry must be satisfiable, and the
-    normal exit must be reachable (otherwise every postcondition holds vacuously)."""
+def _vacuity(ex, seed=1):
+    """Every region in which obligations are proved must be satisfiable, otherwise they hold vacuously:
+      * each loop body (an arbitrary iteration): the assumptions made up to the end of the body, with the body entered;
+      * the function as a whole: all assumptions, and the normal exit reachable.
+    Quantified assumptions are left out.  For the whole-function query the solver is first given hints (not
+    assumptions): the contract's `witness` clauses and "no arbitrary iteration is entered", which make the havocked
+    loop-body states irrelevant; sat with hints implies sat without them, anything else falls back to the plain query."""
     res = []
-    s = z3.Solver()
-    s.set('timeout', max(Z3_TIMEOUT_MS, 90000))
+    memo = {}
 
-    def has_q(t, seen):
-        if t.get_id() in seen:
-            return False
-        seen.add(t.get_id())
-        if z3.is_quantifier(t):
-            return True
-        return any(has_q(c, seen) for c in t.children())
-    for a in ex.assumes:
-        if has_q(a, set()):
-            continue      # quantified preconditions are left out of the satisfiability (vacuity) guard
-        s.add(a)
-    r = s.check()
-    res.append(('assumptions-consistent', str(r)))
-    s.push()
-    s.add(ex.normal_guard)
-    r2 = s.check()
-    s.pop()
-    if r2 == z3.unsat and getattr(ex, 'allows_raises', False) and ex.raise_guards:
-        s.add(z3.Or(*ex.raise_guards))
+    def has_q(t):
+        """iterative, memoised over the shared term DAG"""
+        stack = [t]
+        while stack:
+            u = stack[-1]
+            i = u.get_id()
+            if i in memo:
+                stack.pop()
+                continue
+            if z3.is_quantifier(u):
+                memo[i] = True
+                stack.pop()
+                continue
+            ch = u.children()
+            pending = [c for c in ch if c.get_id() not in memo]
+            if pending:
+                stack.extend(pending)
+                continue
+            memo[i] = any(memo[c.get_id()] for c in ch)
+            stack.pop()
+        return memo[t.get_id()]
+    qf = [a for a in ex.assumes if not has_q(a)]
+    qf_ids = set(a.get_id() for a in qf)
+
+    def solver(assumes):
+        s = z3.Solver()
+        s.set('timeout', max(Z3_TIMEOUT_MS, 90000))
+        s.set('random_seed', seed)
+        for a in assumes:
+            s.add(a)
+        return s
+    regions = getattr(ex, 'body_regions', [])
+    for reg in regions:
+        s = solver([a for a in ex.assumes[:reg.get('n_end', reg['n_begin'])] if a.get_id() in qf_ids])
+        s.add(reg['guard'])
+        for other in regions:
+            if other is not reg and other['n_begin'] < reg['n_begin'] and other.get('n_end', 0) <= reg['n_begin']:
+                s.add(Not(other['cond']))     # hint: iterations of earlier, already finished loops are irrelevant
+        r = s.check()
+        if r != z3.sat:
+            s = solver([a for a in ex.assumes[:reg.get('n_end', reg['n_begin'])] if a.get_id() in qf_ids])
+            s.add(reg['guard'])
+            r = s.check()
+        res.append(('%s-body-reachable' % reg['name'], str(r)))
+    negs = [Not(reg['cond']) for reg in regions]
+    wit = list(getattr(ex, 'witness_terms', []))
+    verdicts = None
+    for hints in ([negs] if negs else []) + ([wit + negs, wit] if wit else []):
+        s = solver(qf)
+        s.set('timeout', 40000)
+        for h in hints:
+            s.add(h)
+        s.add(ex.normal_guard)
+        if s.check() == z3.sat:
+            verdicts = ('sat', 'sat')
+            break
+    if verdicts is None:
+        s = solver(qf)
+        r = s.check()
+        s.push()
+        s.add(ex.normal_guard)
         r2 = s.check()
-        res.append(('declared-exceptional-exit-reachable', str(r2)))
-    else:
-        res.append(('normal-exit-reachable', str(r2)))
+        s.pop()
+        verdicts = (str(r), str(r2))
+        if r2 == z3.unsat and getattr(ex, 'allows_raises', False) and ex.raise_guards:
+            s.add(z3.Or(*ex.raise_guards))
+            r2 = s.check()
+            res.append(('assumptions-consistent', verdicts[0]))
+            res.append(('declared-exceptional-exit-reachable', str(r2)))
+            return res
+    res.append(('assumptions-consistent', verdicts[0]))
+    res.append(('normal-exit-reachable', verdicts[1]))
     return res
 
 
@@ -198,63 +256,139 @@ class Incremental(object):
         self.n = 0
 
     def check(self, ob):
-        """hard wall-clock budget: the query first runs in a forked child (z3's own timeout is not honoured by every
-        tactic); only verdicts reached within the budget count, a killed child means `unknown`."""
+        """Portfolio under a hard wall-clock budget.  The query first runs on the incremental solver in a forked child
+        (z3's own timeout is not honoured by every tactic).  If that has not answered after QUICK_S seconds, a fresh
+        (non-incremental) z3, cvc5 and z3-new are started next to it on the same query; the first definite verdict wins
+        and the others are killed.  Only verdicts reached within the budget count; otherwise the result is `unknown`."""
+        import select
+        import signal
         t0 = time.time()
         while self.n < ob.n_assumes:
             self.s.add(self.ex.assumes[self.n])
             self.n += 1
-        import select
-        import signal
-        rfd, wfd = os.pipe()
-        pid = os.fork()
-        if pid == 0:
-            try:
-                os.close(rfd)
-                self.s.push()
-                self.s.add(ob.guard)
-                self.s.add(Not(ob.cond))
-                r = self.s.check()
-                os.write(wfd, str(r).encode())
-            except BaseException:
+        procs = []      # (label, pid or Popen, read fd or None)
+
+        def fork_solver(label, fn):
+            rfd, wfd = os.pipe()
+            pid = os.fork()
+            if pid == 0:
                 try:
-                    os.write(wfd, b'unknown')
+                    os.close(rfd)
+                    os.write(wfd, str(fn()).encode())
+                except BaseException:
+                    try:
+                        os.write(wfd, b'unknown')
+                    except OSError:
+                        pass
+                finally:
+                    os._exit(0)
+            os.close(wfd)
+            procs.append((label, pid, rfd))
+
+        def incr():
+            self.s.push()
+            self.s.add(ob.guard)
+            self.s.add(Not(ob.cond))
+            return self.s.check()
+
+        def fresh_z3():
+            s2 = z3.Solver()
+            s2.set('random_seed', 3)
+            for a in self.ex.assumes[:ob.n_assumes]:
+                s2.add(a)
+            s2.add(ob.guard)
+            s2.add(Not(ob.cond))
+            return s2.check()
+
+        def kill_all():
+            for label, h, fd in procs:
+                try:
+                    if isinstance(h, int):
+                        os.kill(h, signal.SIGKILL)
+                        os.waitpid(h, 0)
+                    else:
+                        h.kill()
+                        h.wait()
+                except (OSError, ChildProcessError):
+                    pass
+                try:
+                    if fd is not None:
+                        os.close(fd)
                 except OSError:
                     pass
-            finally:
-                os._exit(0)
-        os.close(wfd)
-        ready, _, _ = select.select([rfd], [], [], HARD_TIMEOUT_S)
-        verdict = 'unknown'
-        if ready:
-            verdict = os.read(rfd, 64).decode() or 'unknown'
-        else:
-            try:
-                os.kill(pid, signal.SIGKILL)
-            except OSError:
-                pass
-        os.close(rfd)
-        try:
-            os.waitpid(pid, 0)
-        except OSError:
-            pass
-        if verdict == 'unsat':
-            return Result(ob.name, 'unsat', 'z3-api', time.time() - t0, info=ob.info)
-        if verdict != 'sat':
-            r2 = check_cli_only(self.ex.assumes[:ob.n_assumes], ob.guard, ob.cond, ob.name, ob.info)
-            r2.seconds = time.time() - t0
-            return r2
-        # sat within the budget: repeat in-process to obtain the model
-        return self._check_inprocess(ob, t0)
 
-    def _check_inprocess(self, ob, t0):
-        self.s.push()
-        self.s.add(ob.guard)
-        self.s.add(Not(ob.cond))
-        r = self.s.check()
-        model = self.s.model() if r == z3.sat else None
-        reason = self.s.reason_unknown() if r == z3.unknown else ''
-        self.s.pop()
+        def poll(deadline):
+            """first definite verdict among the running back ends, or None at the deadline / when all gave up"""
+            live = list(procs)
+            while live and time.time() < deadline:
+                fds = [fd for _, _, fd in live]
+                ready, _, _ = select.select(fds, [], [], max(0.05, min(1.0, deadline - time.time())))
+                for fd in ready:
+                    label = [l for l, _, f in live if f == fd][0]
+                    data = os.read(fd, 4096).decode()
+                    first = data.strip().splitlines()[0].strip() if data.strip() else ''
+                    live = [x for x in live if x[2] != fd]
+                    if first in ('sat', 'unsat'):
+                        return first, label
+            return None, None
+        smt_path = None
+        verdict = backend = None
+        try:
+            fork_solver('z3-api', incr)
+            verdict, backend = poll(t0 + QUICK_S)
+            if verdict is None:
+                fork_solver('z3-api (fresh solver)', fresh_z3)
+                s2 = z3.Solver()
+                for a in self.ex.assumes[:ob.n_assumes]:
+                    s2.add(a)
+                s2.add(ob.guard)
+                s2.add(Not(ob.cond))
+                smt2 = s2.to_smt2()
+                with tempfile.NamedTemporaryFile('w', suffix='.smt2', delete=False) as f:
+                    f.write(smt2.replace('(set-info :status unknown)', '(set-logic ALL)'))
+                    smt_path = f.name
+                for label, cmd in (('cvc5', ['/usr/bin/cvc5', '--strings-exp']), ('z3-new', ['z3-new'])):
+                    try:
+                        pr = subprocess.Popen(cmd + [smt_path], stdout=subprocess.PIPE, stderr=subprocess.DEVNULL)
+                    except FileNotFoundError:
+                        continue
+                    procs.append((label, pr, pr.stdout.fileno()))
+                verdict, backend = poll(t0 + HARD_TIMEOUT_S + CLI_TIMEOUT_S)
+        finally:
+            kill_all()
+            if smt_path:
+                try:
+                    os.unlink(smt_path)
+                except OSError:
+                    pass
+        if verdict == 'unsat':
+            return Result(ob.name, 'unsat', backend, time.time() - t0, info=ob.info)
+        if verdict == 'sat':
+            # repeat in-process (on the solver configuration that answered) to obtain the model
+            return self._check_inprocess(ob, t0, fresh=(backend != 'z3-api'))
+        return Result(ob.name, 'unknown', 'portfolio', time.time() - t0, info=ob.info,
+                      reason='no back end decided within the budget')
+
+    def _check_inprocess(self, ob, t0, fresh=False):
+        if fresh:
+            s2 = z3.Solver()
+            s2.set('random_seed', 3)
+            s2.set('timeout', 1000 * HARD_TIMEOUT_S)
+            for a in self.ex.assumes[:ob.n_assumes]:
+                s2.add(a)
+            s2.add(ob.guard)
+            s2.add(Not(ob.cond))
+            r = s2.check()
+            model = s2.model() if r == z3.sat else None
+            reason = s2.reason_unknown() if r == z3.unknown else ''
+        else:
+            self.s.push()
+            self.s.add(ob.guard)
+            self.s.add(Not(ob.cond))
+            r = self.s.check()
+            model = self.s.model() if r == z3.sat else None
+            reason = self.s.reason_unknown() if r == z3.unknown else ''
+            self.s.pop()
         dt = time.time() - t0
         if r == z3.unsat:
             return Result(ob.name, 'unsat', 'z3-api', dt, info=ob.info)
